@@ -143,6 +143,71 @@ theorem settled_traces (E : Env) (k : Kind) (s : JoinedState) (h : Settled E k s
     simp only [List.map_cons, h1]
     rw [Flatland.C04.Proofs.scalarSetTrace_eq, hr]
 
+/-- when no piece has an empty text under prune_empty, the loop keeps every member -/
+theorem keepPieces_all_kept (prune : Bool) (l : List (SState × Bool × List (Bool × SState))) (i : Nat)
+    (h : ∀ r ∈ l, prune = true → r.1.u ≠ []) :
+    (Flatland.C04.keepPieces prune l i).1 = l.map fun r => (r.1, r.2.1) := by
+  induction l generalizing i with
+  | nil => rfl
+  | cons r rest ih =>
+    have hr := h r (by simp)
+    have ih' := fun j => ih j (fun x hx => h x (List.mem_cons_of_mem _ hx))
+    simp only [Flatland.C04.keepPieces]
+    split
+    · rename_i hc
+      simp only [Bool.and_eq_true, List.isEmpty_iff] at hc
+      exact absurd hc.2 (hr hc.1)
+    · simp [ih' (i + 1)]
+
+/-- what the loop keeps under prune_empty has a non-empty text -/
+theorem keepPieces_nonempty (prune : Bool) (l : List (SState × Bool × List (Bool × SState))) (i : Nat) :
+    ∀ q ∈ (Flatland.C04.keepPieces prune l i).1, prune = true → q.1.u ≠ [] := by
+  induction l generalizing i with
+  | nil => intro q hq; simp [Flatland.C04.keepPieces] at hq
+  | cons r rest ih =>
+    intro q hq hp
+    simp only [Flatland.C04.keepPieces] at hq
+    split at hq
+    · exact ih i q hq hp
+    · rename_i hc
+      rcases List.mem_cons.mp hq with rfl | hq
+      · intro hu
+        apply hc
+        simp only at hu
+        simp [hp, hu]
+      · exact ih (i + 1) q hq hp
+
+theorem setElem_joined_noEmpty (E : Env) (sep : Str) (sp : Splitter) (prune : Bool) (k : Kind)
+    (old : Flatland.C04.Elem) (x : Flatland.C04.Input) (out : Flatland.C04.SetOut)
+    (h : Flatland.C04.setElem E (.joined sep sp prune k) old x = .ok out) :
+    ∃ ms, out.elem = .joined ms ∧ (prune = true → ∀ st ∈ ms, st.u ≠ []) := by
+  simp only [Flatland.C04.setElem] at h
+  split at h
+  · simp at h
+  · simp only [Except.ok.injEq] at h; subst h; exact ⟨[], rfl, by simp⟩
+  · split at h
+    · simp at h
+    · simp only [Except.ok.injEq] at h; subst h
+      refine ⟨_, rfl, ?_⟩
+      intro hp st hst
+      obtain ⟨q, hq, rfl⟩ := List.mem_map.mp hst
+      exact keepPieces_nonempty prune _ 0 q hq hp
+
+/-- **set_establishes_noEmpty** (since fix 2a6b55c) — after ANY completed whole-element `set()`
+    of a JoinedString, no member has the text `''` under prune_empty: the state satisfies
+    `NoEmptyTextUnderPrune`.  Only member mutation (append / member set) can break it (KF-C18-a). -/
+theorem set_establishes_noEmpty (E : Env) (c : JoinedCfg) (s s' : JoinedState) (x : Flatland.C04.Input)
+    (ret : Option Bool) (h : joinedSet E c s x = .ok (s', ret)) : NoEmptyTextUnderPrune c s' := by
+  unfold joinedSet at h
+  cases hset : Flatland.C04.setElem E c.schema (.joined s) x with
+  | error e => simp [hset] at h
+  | ok out =>
+    simp only [hset, Except.ok.injEq, Prod.mk.injEq] at h
+    obtain ⟨rfl, _⟩ := h
+    obtain ⟨ms, hms, hne⟩ := setElem_joined_noEmpty E c.sep c.sp c.prune c.member _ x out hset
+    rw [hms]
+    exact hne
+
 /-- **joined_reset** (partial: `SplitStable`, `NoEmptyTextUnderPrune`; see KF-C18-a / KF-C18-c) —
     setting a JoinedString to its own value reproduces that value. -/
 theorem joined_reset_partial (E : Env) (c : JoinedCfg) (s : JoinedState)
@@ -150,28 +215,26 @@ theorem joined_reset_partial (E : Env) (c : JoinedCfg) (s : JoinedState)
     ∃ s' flag, joinedSet E c s (.leaf (.str (joinedValue c s))) = .ok (s', some flag) ∧
       joinedValue c s' = joinedValue c s := by
   obtain ⟨rs, h1, h2⟩ := settled_traces E c.member s hset
-  have hkept : (List.map Native.str (s.map (·.u))).filter (fun v => !(c.prune && !pyTruthy v)) =
-      List.map Native.str (s.map (·.u)) := by
-    apply List.filter_eq_self.mpr
-    intro v hv
-    obtain ⟨u, hu, rfl⟩ := List.mem_map.mp hv
-    obtain ⟨st, hst, rfl⟩ := List.mem_map.mp hu
-    cases hp : c.prune with
-    | false => simp
-    | true =>
-      have := hprune hp st hst
-      simp [pyTruthy, this]
+  have hne : ∀ r ∈ rs.map (fun r : SetResult => (r.st, r.flag, [(r.flag, r.st)])), c.prune = true → r.1.u ≠ [] := by
+    intro r hr hp
+    obtain ⟨r0, hr0, rfl⟩ := List.mem_map.mp hr
+    have : r0.st.u ∈ s.map (·.u) := h2 ▸ List.mem_map_of_mem (f := fun x : SetResult => x.st.u) hr0
+    obtain ⟨st, hst, hu⟩ := List.mem_map.mp this
+    simp only
+    rw [← hu]
+    exact hprune hp st hst
   refine ⟨rs.map (·.st), rs.all (·.flag), ?_, ?_⟩
   · unfold joinedSet JoinedCfg.schema
     simp only [Flatland.C04.setElem]
     unfold SplitStable at hsplit
-    simp only [hsplit, hkept]
+    simp only [hsplit]
     have : List.map (fun v => Flatland.C04.scalarSetTrace E c.member Flatland.C04.blankState v)
         (List.map Native.str (List.map (fun x => x.u) s)) =
         (rs.map fun r => (r.st, r.flag, [(r.flag, r.st)])).map .ok := by
       rw [← h1]; simp [List.map_map, Function.comp_def]
     simp only [this]
     rw [findSome_map_ok _ (fun _ => rfl), filterMap_map_ok _ (fun _ => rfl)]
+    simp only [keepPieces_all_kept c.prune _ 0 hne]
     simp [joinedOfElem, List.map_map, Function.comp_def, List.all_map]
   · unfold joinedValue
     simp only [List.map_map]
@@ -300,29 +363,30 @@ example : MembersFit Flatland.Generated.C04.pyTables (.int 2020) (.int 2) (.int 
 theorem splitWith_nil (T : Tables) (sp : Splitter) (sep : Str) : splitWith T sp sep [] = [[]] := by
   cases sp <;> rfl
 
-/-- **joined_reset**, empty JoinedString: its value `''` set again gives `''` — always under
-    prune_empty, and without it whenever the member type gives `''` the text `''` -/
+/-- **joined_reset**, empty JoinedString: its value `''` set again gives `''` whenever the member
+    type gives the text `''` for `''` (with or without prune_empty: since fix 2a6b55c the piece is
+    adapted first; a member type that turns `''` into another text — Boolean(false='no') — keeps it) -/
 theorem joined_reset_empty (E : Env) (c : JoinedCfg)
-    (h : c.prune = true ∨ ∃ r, setScalar E c.member (.str []) = .ok r ∧ r.st.u = []) :
+    (h : ∃ r, setScalar E c.member (.str []) = .ok r ∧ r.st.u = []) :
     ∃ s' flag, joinedSet E c [] (.leaf (.str (joinedValue c []))) = .ok (s', some flag) ∧
       joinedValue c s' = joinedValue c [] := by
   have hv : joinedValue c [] = [] := rfl
   rw [hv]
   unfold joinedSet JoinedCfg.schema
   simp only [Flatland.C04.setElem, splitWith_nil]
-  rcases h with hp | ⟨r, hr, hu⟩
-  · exact ⟨[], true, by simp [hp, pyTruthy, joinedOfElem, Flatland.C04.indexed], rfl⟩
-  · cases hp : c.prune with
-    | true => exact ⟨[], true, by simp [pyTruthy, joinedOfElem, Flatland.C04.indexed], rfl⟩
-    | false =>
-      refine ⟨[r.st], r.flag, by simp [Flatland.C04.Proofs.scalarSetTrace_eq, hr, joinedOfElem], ?_⟩
-      simp [joinedValue, joinStr, hu]
+  obtain ⟨r, hr, hu⟩ := h
+  cases hp : c.prune with
+  | true =>
+    exact ⟨[], true, by simp [Flatland.C04.Proofs.scalarSetTrace_eq, hr, Flatland.C04.keepPieces, hu, joinedOfElem], rfl⟩
+  | false =>
+    refine ⟨[r.st], r.flag, by simp [Flatland.C04.Proofs.scalarSetTrace_eq, hr, Flatland.C04.keepPieces, joinedOfElem], ?_⟩
+    simp [joinedValue, joinStr, hu]
 
 /-- **joined_reset** for the common configuration, every state including the empty one -/
 theorem joined_reset_single_char_all (E : Env) (c : JoinedCfg) (s : JoinedState) (ch : Char)
     (hsep : c.sep = [ch]) (hsp : c.sp = .static) (h : ∀ st ∈ s, ch ∉ st.u)
     (hprune : NoEmptyTextUnderPrune c s) (hset : Settled E c.member s)
-    (hempty : c.prune = true ∨ ∃ r, setScalar E c.member (.str []) = .ok r ∧ r.st.u = []) :
+    (hempty : ∃ r, setScalar E c.member (.str []) = .ok r ∧ r.st.u = []) :
     ∃ s' flag, joinedSet E c s (.leaf (.str (joinedValue c s))) = .ok (s', some flag) ∧
       joinedValue c s' = joinedValue c s := by
   cases s with
@@ -404,7 +468,9 @@ theorem liveStep_read (E : Env) (w : Writable) (path : List PStep) (s s' : TStat
   | listInsert p i v => left; simp only [liveStep] at h; split at h <;> simp at h; exact h.2.2.symm
   | listDel p i => left; simp only [liveStep] at h; split at h <;> simp at h; exact h.2.2.symm
 
-/-- **ref_proxy_history** — for every form tree, target path, writable mode and history of
+/-- **ref_proxy_history** — (holds by construction of `liveStep`, whose read IS "resolve the path
+    against the current tree"; that the code does this is checked by correspondence and oracle, and
+    `cachedRef_fails` shows a Ref implementation for which it is false) for every form tree, target path, writable mode and history of
     operations on the tree (scalar sets, `Dict.set` that rebuilds members, list set / insert /
     delete before or at the target position, Ref reads, Ref writes), every Ref read returns the
     value and text of the element that the path denotes in the tree at that moment. -/
@@ -487,7 +553,8 @@ def refPath : List PStep := [.name "sub".toList, .name "t".toList]
 
 /-- KF-C18-b as a counter-model: with a cached target, `sub.set({'t': '1'}); r.value;
     sub.set({'t': '2'}); r.value` reads '1' while the path denotes the element holding '2' — so
-    `ref_proxy_history` is a statement about resolving at every access, not a definition -/
+    `ref_proxy_history`, true of the live model by construction, is false of this one: the statement
+    separates the two implementations -/
 theorem cachedRef_fails :
     ¬ ∀ (c : CachedState) (ops : List TOp),
         ReadsDenoted (cachedStep plainEnv refPath) (·.base.tree) refPath c ops = true := by
